@@ -79,6 +79,9 @@ type Options struct {
 	// deterministic non-preemptive one (keep running the same thread, else the lowest id) and EVERY departure
 	// from its choice costs one deviation, so bound d explores O((points*alternatives)^d) schedules.
 	FreeSwitch bool
+	// Free: no scheduling at all - harness threads are plain goroutines and every instrumented operation is a
+	// pass-through. Used for the free-running -race pass that validates the data-race-freedom assumption.
+	Free bool
 }
 
 // Sched is the scheduler of one execution.
@@ -101,6 +104,8 @@ type Sched struct {
 	draining bool
 	foreign  map[int64]bool
 	stamp    int64
+	Free     bool
+	freeWG   sync.WaitGroup
 	idleTotal time.Duration
 	born     map[any]int
 }
@@ -144,7 +149,11 @@ func New(opt Options) *Sched {
 	if opt.IdleStep == 0 {
 		opt.IdleStep = opt.Horizon
 	}
-	s := &Sched{byG: map[int64]*Thread{}, opt: opt}
+	s := &Sched{byG: map[int64]*Thread{}, opt: opt, Free: opt.Free}
+	if opt.Free {
+		S = nil
+		return s
+	}
 	s.byG[goid()] = nil // the scheduler goroutine itself is never a thread
 	S = s
 	return s
@@ -316,6 +325,21 @@ func (s *Sched) Go(name string, f func()) { s.GoPrio(name, 0, f) }
 // prio value is enabled: environment events, cancellations and shutdowns are "late" by default, and every
 // earlier placement of them costs deviations like any other departure from the default schedule.
 func (s *Sched) GoPrio(name string, prio int, f func()) {
+	if s.Free {
+		s.freeWG.Add(1)
+		go func() {
+			defer s.freeWG.Done()
+			defer func() {
+				if r := recover(); r != nil {
+					s.mu.Lock()
+					s.ThreadPanic = fmt.Sprint(r)
+					s.mu.Unlock()
+				}
+			}()
+			f()
+		}()
+		return
+	}
 	s.mu.Lock()
 	t := &Thread{ID: len(s.threads), gate: make(chan struct{}), state: stNative, Name: name, Harness: true, Prio: prio}
 	s.threads = append(s.threads, t)
@@ -377,10 +401,18 @@ func Self() bool { return self() != nil }
 // Locked runs f under the scheduler lock (shim state updates).
 func Locked(f func()) {
 	s := S
+	if s == nil {
+		freeMu.Lock()
+		f()
+		freeMu.Unlock()
+		return
+	}
 	s.mu.Lock()
 	f()
 	s.mu.Unlock()
 }
+
+var freeMu sync.Mutex
 
 // WakeLocked makes all threads waiting on obj enabled again. Caller is inside Locked.
 func WakeLocked(obj any) {
@@ -518,6 +550,10 @@ func (s *Sched) Describe() string {
 // Run drives the threads until every harness thread has exited and nothing is enabled (quiescence), a
 // deadlock is detected or the step budget is exhausted. It returns true on normal completion.
 func (s *Sched) Run() bool {
+	if s.Free {
+		s.freeWG.Wait()
+		return false // no verdicts in free mode: the harness bodies skip their oracles
+	}
 	idle := time.Duration(0)
 	idleRounds := 0
 	for {
@@ -623,6 +659,9 @@ func (s *Sched) Resume() bool {
 
 // Stop deactivates the scheduler and lets every parked thread run freely so that the bubble can end.
 func (s *Sched) Stop() {
+	if s.Free {
+		return
+	}
 	s.mu.Lock()
 	S = nil
 	var parked []*Thread
